@@ -1,6 +1,7 @@
 (** * C14 -- Every compiled IR module is well-formed.  Statements only. *)
 From Coq Require Import String ZArith List Bool Arith.
-From NSL Require Import Model.PyNum Model.IR Model.VM Model.WfIR Proofs.WfIRProofs.
+From NSL Require Import Base.Types Base.Syntax Model.PyNum Model.IR Model.VM Model.WfIR Model.Elab Model.Lower Proofs.WfIRProofs
+     Proofs.LowerExprProofs Proofs.LowerStmtProofs Proofs.LowerWfProofs Proofs.LowerAllocProofs.
 From NSLDyn Require Gen_Shapes.
 Import ListNotations.
 
@@ -18,6 +19,18 @@ Proof. exact wf_run_sound. Qed.
 Theorem C14_wellformed_invoke : forall fuel P fn named st, wf_program_b P = true ->
     find_func P fn <> None -> ~ bad (invoke fuel P fn named st).
 Proof. exact wf_invoke_sound. Qed.
+
+(** The compiler side, for straight-line functions: whatever the lowering model ([lower_func], compared for equality with
+    the real compiler's IR on every run) produces for a typed function whose body is declarations and assignments of
+    scalar variables with pure right-hand sides followed by a return passes the check: references of constants, the block
+    and the instructions pairwise distinct ([alloc_ok], an invariant of the three primitive moves of the lowering state),
+    every operand a pooled constant or the result of an earlier instruction ([code_ok]), one block, no branch or call.
+    Hence (with the theorem above) such a function never reads an undefined operand.  For other functions
+    well-formedness is checked per compiled module, not proved of the compiler. *)
+Theorem C14_lowering_straight_line_wellformed_partial : forall structs gl (f : tfunc) tl te F P,
+  tf_body f = tl ++ [TRet (Some te)] -> forallb simple tl = true -> tpure te = true ->
+  Forall (fresh_tdecl gl (map snd (tf_args f))) tl -> lower_func structs gl f = LOk F -> wf_func_b P F = true.
+Proof. exact straight_lowered_wellformed. Qed.
 
 (** non-vacuity: a well-formed two-block function, and an ill-formed one (operand from another block) *)
 Definition iI := ITInt false.
@@ -39,4 +52,5 @@ Proof. vm_compute. split; reflexivity. Qed.
 
 Eval compute in "ASSUMPTIONS C14_wellformed_never_undefined"%string. Print Assumptions C14_wellformed_never_undefined.
 Eval compute in "ASSUMPTIONS C14_wellformed_invoke"%string. Print Assumptions C14_wellformed_invoke.
+Eval compute in "ASSUMPTIONS C14_lowering_straight_line_wellformed_partial"%string. Print Assumptions C14_lowering_straight_line_wellformed_partial.
 Eval compute in "END"%string.
